@@ -583,6 +583,25 @@ def _int_token_vs_digits(a, b):
     return n == val
 
 
+def tok_alphabet(t):
+    m = _SPEC.match(t.spec or '')
+    typ = m.group('type') if m else None
+    if t.spec.startswith('%'):
+        typ = t.spec[-1]
+    base = set('0123456789')
+    if m and m.group('sign') == ' ' or (m and m.group('width') and not m.group('zero')):
+        base |= {' '}
+    if m and m.group('sign') == '+':
+        base |= {'+'}
+    if typ in ('d', 'i'):
+        return base | {'-'}
+    if typ in ('f', 'F'):
+        return base | set('-.infa')
+    if typ is None and not t.spec.startswith('%') and isinstance(t.val, Sym) and t.val.e.sort == 'I':
+        return base | {'-'}
+    return TOKEN_ALPHABET | base
+
+
 def _truth(x):
     return x if isinstance(x, bool) else bool(x)
 
@@ -614,7 +633,7 @@ def cell_eq(a, b):
         return va == vb
     if ta or tb:
         other = b if ta else a
-        if isinstance(other, str) and other not in TOKEN_ALPHABET:
+        if isinstance(other, str) and other not in tok_alphabet(a if ta else b):
             return False
         if isinstance(other, str):
             raise Escape('comparison of a formatted number with the character %r' % other)
@@ -970,3 +989,5 @@ def install():
     loader.fmt_hook[0] = fmt_hook
     loader.extra_globals['str'] = sym_str
     loader.extra_globals['len'] = sym_len
+    from . import symre
+    loader.module_patches['re'] = ('re', symre.module)
